@@ -173,6 +173,7 @@ def answer (line : String) : String :=
   if line.startsWith "COMPILE " then answerCompile (line.drop 8).toString else
   match line.splitOn " " with
   | "PARSE" :: rest => answerParse rest
+  | "FIND" :: _ => "ok"
   | "SPEC" :: rest => answerSpec rest
   | "OP" :: name :: args => answerOp name args
   | ["FMT", v] => (match readVal v with
